@@ -190,7 +190,7 @@ fn names_project(name: &str) -> Option<Project> {
     if name == "events-nested" {
         // types that only an event payload reaches, directly and through fields
         return Some(Project::single(format!(
-            "{}use tauri::{{AppHandle, Emitter}};\n#[derive(Serialize, Deserialize)]\npub struct SyncProgress {{ pub step: Step, pub history: Vec<Step>, pub phase: Option<Phase> }}\n#[derive(Serialize, Deserialize)]\npub struct Step {{ pub index: u32, pub phase: Phase }}\n#[derive(Serialize, Deserialize)]\npub enum Phase {{ Start, Done }}\n#[derive(Serialize, Deserialize)]\npub struct Solo {{ pub n: i32 }}\n#[tauri::command]\npub fn anchor(n: i32) -> i32 {{ n }}\npub fn fire(app: &AppHandle, p: SyncProgress, s: Solo) {{\n    app.emit(\"sync-progress\", p).unwrap();\n    app.emit(\"solo\", &s).unwrap();\n}}\n",
+            "{}use tauri::{{AppHandle, Emitter}};\n#[derive(Serialize, Deserialize)]\npub struct SyncProgress {{ pub step: Step, pub history: Vec<Step>, pub phase: Option<Phase> }}\n#[derive(Serialize, Deserialize)]\npub struct Step {{ pub index: u32, pub phase: Phase }}\n#[derive(Serialize, Deserialize)]\npub enum Phase {{ Start, Done }}\n#[derive(Serialize, Deserialize)]\npub struct Solo {{ pub n: i32 }}\n#[tauri::command]\npub fn anchor(n: i32) -> i32 {{ n }}\npub fn fire(app: &AppHandle, p: SyncProgress, s: Solo) {{\n    app.emit(\"sync-progress\", p).unwrap();\n    app.emit(\"solo\", &s).unwrap();\n}}\n#[derive(Serialize, Deserialize)]\npub struct JobFailure {{ pub id: i32, pub reason: FailureReason }}\n#[derive(Serialize, Deserialize)]\npub enum FailureReason {{ Timeout, Crash }}\n#[derive(Serialize, Deserialize)]\npub struct JobDone {{ pub id: i32 }}\npub fn first_site(app: &AppHandle, d: JobDone) {{ app.emit(\"job-status\", d).unwrap(); }}\npub fn between(app: &AppHandle) {{ app.emit(\"other\", 1).unwrap(); }}\npub fn later_site(app: &AppHandle, f: JobFailure) {{ app.emit(\"job-status\", f).unwrap(); }}\npub fn third_site(app: &AppHandle, s: Solo) {{ app.emit(\"job-status\", s.clone()).unwrap(); }}\n",
             gen::PRELUDE
         )));
     }
